@@ -253,6 +253,52 @@ func (c *Ctx) A9(rule string) []report.Obligation {
 		}
 		out = append(out, o)
 	}
+	// "for mount sources and secret/config files, Windows-absolute paths are left as written": the resolver bound
+	// to those attributes consults the Windows-absolute test (a function of package paths that checks for a drive
+	// letter / UNC prefix), the others need not
+	winAttrs := map[string]bool{"services.*.volumes.*.source": true, "services.*.volumes.*": true, "secrets.*.file": true, "configs.*.file": true}
+	var winTest *ssa.Function
+	for _, f := range c.P.Funcs {
+		if strings.HasPrefix(c.P.FuncID(f), "paths.") && strings.Contains(strings.ToLower(f.Name()), "windowsabs") {
+			winTest = f
+		}
+	}
+	if winTest == nil {
+		out = append(out, bad(rule+"-win", "paths :: Windows-absolute test", "", "no function of package paths tests for a Windows-absolute path: the rule sees nothing"))
+	} else {
+		for _, r := range res.Rows {
+			covers := ""
+			for sp := range winAttrs {
+				if tab.MatchPattern(sp, r.Pattern) {
+					covers = sp
+				}
+			}
+			if covers == "" {
+				continue
+			}
+			reaches := false
+			if r.Fn != nil {
+				seen := map[*ssa.Function]bool{}
+				var walk func(f *ssa.Function, d int)
+				walk = func(f *ssa.Function, d int) {
+					if f == nil || seen[f] || d == 0 || reaches {
+						return
+					}
+					seen[f] = true
+					if f == winTest {
+						reaches = true
+						return
+					}
+					for _, cs := range callSites(f, func(com *ssa.CallCommon) bool { return com.StaticCallee() != nil && c.P.InModule(com.StaticCallee()) }) {
+						walk(cs.Common().StaticCallee(), d-1)
+					}
+				}
+				walk(r.Fn, 4)
+			}
+			out = append(out, verdict(reaches, rule+"-win", TResolvers+" :: "+covers+" leaves Windows-absolute paths as written", r.Pos,
+				"the bound resolver "+r.Func+" consults "+c.P.FuncID(winTest), "the resolver bound to this attribute ("+r.Func+") never tests for a Windows-absolute path: `C:\\x` is joined with the project directory, unlike the same value on the sibling attributes"))
+		}
+	}
 	// no resolver is registered on a non-path attribute: every row must cover one of the frozen attributes or be dead (A2)
 	for _, r := range res.Rows {
 		ok := false
@@ -803,5 +849,138 @@ func (c *Ctx) FMTVERB(rule string, pkgs ...string) []report.Obligation {
 		}
 	}
 	out = append(out, report.Obligation{Rule: rule, Key: "inventory", Status: report.Discharged, Why: fmt.Sprintf("%d %%s/%%d operands of interface type in Sprintf calls of %v", n, pkgs)})
+	return out
+}
+
+// ---------------------------------------------------------------------------
+// SIBARM (C03): one grammar, one parser. When a type switch of a canonical
+// transformer or decoder has several scalar arms (an int and a string spelling
+// of the same short form), and one of them hands the value to a parser of
+// package types / format, every scalar arm does: an arm that builds the value
+// by hand skips the range and syntax checks of the grammar, so the two
+// spellings of one value no longer agree on what is rejected.
+// ---------------------------------------------------------------------------
+
+func (c *Ctx) SIBARM(rule string, pkgs ...string) []report.Obligation {
+	var out []report.Obligation
+	n := 0
+	for _, fn := range c.P.Funcs {
+		id := c.P.FuncID(fn)
+		in := false
+		for _, p := range pkgs {
+			if strings.HasPrefix(id, p+".") {
+				in = true
+			}
+		}
+		if !in {
+			continue
+		}
+		// group the comma-ok type assertions to basic types by operand
+		type arm struct {
+			ta     *ssa.TypeAssert
+			region *ssa.BasicBlock
+		}
+		groups := map[ssa.Value][]arm{}
+		var order []ssa.Value
+		for _, b := range fn.Blocks {
+			for _, ins := range b.Instrs {
+				ta, ok := ins.(*ssa.TypeAssert)
+				if !ok || !ta.CommaOk {
+					continue
+				}
+				if _, isBasic := ta.AssertedType.Underlying().(*types.Basic); !isBasic {
+					continue
+				}
+				// the block entered when the assertion succeeds
+				var region *ssa.BasicBlock
+				for _, r := range *ta.Referrers() {
+					ex, ok := r.(*ssa.Extract)
+					if !ok || ex.Index != 1 {
+						continue
+					}
+					for _, rr := range *ex.Referrers() {
+						if iff, ok := rr.(*ssa.If); ok {
+							region = iff.Block().Succs[0]
+						}
+					}
+				}
+				if region == nil {
+					continue
+				}
+				if _, seen := groups[ta.X]; !seen {
+					order = append(order, ta.X)
+				}
+				groups[ta.X] = append(groups[ta.X], arm{ta, region})
+			}
+		}
+		for _, x := range order {
+			arms := groups[x]
+			if len(arms) < 2 {
+				continue
+			}
+			parsersOf := func(a arm) map[string]bool {
+				res := map[string]bool{}
+				for _, b := range fn.Blocks {
+					if b != a.region && !a.region.Dominates(b) {
+						continue
+					}
+					for _, ins := range b.Instrs {
+						call, ok := ins.(ssa.CallInstruction)
+						if !ok {
+							continue
+						}
+						cal := call.Common().StaticCallee()
+						if cal == nil || !c.P.InModule(cal) {
+							continue
+						}
+						cid := c.P.FuncID(cal)
+						if !(strings.HasPrefix(cid, "types.") || strings.HasPrefix(cid, "format.")) {
+							continue
+						}
+						hasStr := false
+						for i := 0; i < cal.Signature.Params().Len(); i++ {
+							if isStringType(cal.Signature.Params().At(i).Type()) {
+								hasStr = true
+							}
+						}
+						if hasStr && cal.Signature.Results().Len() >= 1 {
+							res[cid] = true
+						}
+					}
+				}
+				return res
+			}
+			all := map[string]bool{}
+			per := make([]map[string]bool, len(arms))
+			for i, a := range arms {
+				per[i] = parsersOf(a)
+				for k := range per[i] {
+					all[k] = true
+				}
+			}
+			if len(all) == 0 {
+				continue
+			}
+			n++
+			var missing []string
+			for i, a := range arms {
+				for k := range all {
+					if !per[i][k] {
+						missing = append(missing, fmt.Sprintf("the %s arm does not call %s", c.P.TypeStr(a.ta.AssertedType), k))
+					}
+				}
+			}
+			sort.Strings(missing)
+			var ps []string
+			for k := range all {
+				ps = append(ps, k)
+			}
+			sort.Strings(ps)
+			key := id + " :: scalar arms over " + c.P.KeyTerm(x, 2) + " share the parser " + strings.Join(ps, ",")
+			out = append(out, verdict(len(missing) == 0, rule, key, c.P.InstrPos(arms[0].ta), "every scalar arm hands the value to the same parser",
+				strings.Join(missing, "; ")+": that spelling bypasses the checks of the grammar (range, syntax), so a value rejected in one spelling loads in the other"))
+		}
+	}
+	out = append(out, report.Obligation{Rule: rule, Key: "inventory", Status: report.Discharged, Why: fmt.Sprintf("%d type switches with several scalar arms and a parser in %v", n, pkgs)})
 	return out
 }
